@@ -12,6 +12,7 @@ import (
 	sentinel "github.com/alibaba/sentinel-golang/api"
 	"github.com/alibaba/sentinel-golang/core/base"
 	"github.com/alibaba/sentinel-golang/core/config"
+	"github.com/alibaba/sentinel-golang/core/hotspot"
 	"github.com/alibaba/sentinel-golang/core/stat"
 
 	"vh/internal/emit"
@@ -40,6 +41,25 @@ type SlotSpec struct {
 
 type ChainSpec struct {
 	Slots []SlotSpec `json:"slots"` // in insertion order
+	// Default: the real global slot chain (api.GlobalSlotChain()). Slots then holds its model
+	// image: the node-prepare slot, the hotspot rule-check slot (a hotspot rule on parameter 0 is
+	// loaded for every resource of the case: it passes hashable arguments and panics on an
+	// unhashable one, selected in the model by flag 1) and stat.DefaultSlot, all with negative
+	// ids = "does not record its calls". The other built-in slots have no rules and no effect on
+	// the observables.
+	Default bool `json:"default,omitempty"`
+}
+
+// Unhashable is the argument value that stands for an unhashable Go value (a slice).
+const Unhashable int64 = -999
+
+// DefaultChainSlots is the model image of the global chain.
+func DefaultChainSlots() []SlotSpec {
+	return []SlotSpec{
+		{Kind: "prep", ID: -1, Order: stat.PrepareSlotOrder, Behs: []Beh{{K: "node"}}},
+		{Kind: "check", ID: -2, Order: hotspot.RuleCheckSlotOrder, Behs: []Beh{{K: "pass"}, {K: "panic"}}},
+		{Kind: "stat", ID: -3, Order: stat.DefaultSlot.Order(), Real: true},
+	}
 }
 
 type Op struct {
@@ -162,17 +182,18 @@ func ResName(id, res int) string { return "cx-" + strconv.Itoa(id) + "-" + strco
 // ---- execution on the implementation ------------------------------------------------------
 
 type runner struct {
-	c       *Case
-	chains  []*base.SlotChain
-	log     []Call
-	ctxID   map[*base.EntryContext]int
-	seenCtx int // context seen by slot callbacks during the current Entry (-1 none)
-	entries []*base.SentinelEntry
-	rets    []*base.BlockError
-	errs    map[int64]*vhErr
-	resIdx  map[string]int
-	inbBase CntView
-	exited  map[int]bool // an exit op has been issued on this entry: e.Context() is stale
+	c        *Case
+	chains   []*base.SlotChain
+	log      []Call
+	ctxID    map[*base.EntryContext]int
+	seenCtx  int // context seen by slot callbacks during the current Entry (-1 none)
+	entries  []*base.SentinelEntry
+	rets     []*base.BlockError
+	errs     map[int64]*vhErr
+	resIdx   map[string]int
+	inbBase  CntView
+	exited   map[int]bool // an exit op has been issued on this entry: e.Context() is stale
+	hotRules bool
 }
 
 func (r *runner) noteCtx(ctx *base.EntryContext) int {
@@ -287,7 +308,13 @@ func (s *statSlot) OnCompleted(ctx *base.EntryContext) {
 }
 
 func (r *runner) build() {
+	hasDefault := false
 	for ci := range r.c.Chains {
+		if r.c.Chains[ci].Default {
+			hasDefault = true
+			r.chains = append(r.chains, sentinel.GlobalSlotChain())
+			continue
+		}
 		sc := base.NewSlotChain()
 		for i := range r.c.Chains[ci].Slots {
 			s := r.c.Chains[ci].Slots[i]
@@ -305,6 +332,17 @@ func (r *runner) build() {
 			}
 		}
 		r.chains = append(r.chains, sc)
+	}
+	r.hotRules = hasDefault
+	if hasDefault {
+		var rules []*hotspot.Rule
+		for k := 0; k < r.c.NRes; k++ {
+			rules = append(rules, &hotspot.Rule{Resource: ResName(r.c.ID, k), MetricType: hotspot.QPS, ControlBehavior: hotspot.Reject,
+				ParamIndex: 0, Threshold: 1 << 40, DurationInSec: 1})
+		}
+		if _, err := hotspot.LoadRules(rules); err != nil {
+			panic(err)
+		}
 	}
 }
 
@@ -327,12 +365,30 @@ func (r *runner) counters(key int) CntView {
 	} else {
 		n = stat.GetResourceNode(ResName(r.c.ID, key))
 	}
-	v := CntView{Key: key}
+	v := NodeCounters(n)
+	v.Key = key
 	if n == nil {
 		return v
 	}
-	// read view over the node's whole underlying array (20 x 500 ms by default), whatever
-	// geometry the node's default view was created with
+	if key < 0 {
+		b := r.inbBase
+		v.Pass -= b.Pass
+		v.Block -= b.Block
+		v.Done -= b.Done
+		v.Err -= b.Err
+		v.Rt -= b.Rt
+		v.Gauge -= b.Gauge
+	}
+	return v
+}
+
+// NodeCounters reads a node's sums over its whole underlying array (20 x 500 ms by default,
+// whatever geometry the node's default view was created with) and its concurrency gauge.
+func NodeCounters(n *stat.ResourceNode) CntView {
+	var v CntView
+	if n == nil {
+		return v
+	}
 	rs, err := n.GenerateReadStat(config.GlobalStatisticSampleCountTotal(), config.GlobalStatisticIntervalMsTotal())
 	if err != nil {
 		panic(err)
@@ -343,15 +399,6 @@ func (r *runner) counters(key int) CntView {
 	v.Err = rs.GetSum(base.MetricEventError)
 	v.Rt = rs.GetSum(base.MetricEventRt)
 	v.Gauge = int64(n.CurrentConcurrency())
-	if key < 0 {
-		b := r.inbBase
-		v.Pass -= b.Pass
-		v.Block -= b.Block
-		v.Done -= b.Done
-		v.Err -= b.Err
-		v.Rt -= b.Rt
-		v.Gauge -= b.Gauge
-	}
 	return v
 }
 
@@ -431,11 +478,19 @@ func Run(c *Case, clk *vclock.Clock) []Obs {
 			if o.Inb {
 				tt = base.Inbound
 			}
-			opts := []sentinel.EntryOption{sentinel.WithTrafficType(tt), sentinel.WithBatchCount(o.Batch), sentinel.WithFlag(o.Flag), sentinel.WithSlotChain(r.chains[o.Chain])}
+			opts := []sentinel.EntryOption{sentinel.WithTrafficType(tt), sentinel.WithBatchCount(o.Batch), sentinel.WithFlag(o.Flag)}
+			if !c.Chains[o.Chain].Default {
+				// the default chain is reached the way applications reach it: no WithSlotChain option
+				opts = append(opts, sentinel.WithSlotChain(r.chains[o.Chain]))
+			}
 			if len(o.Args) > 0 {
 				as := make([]interface{}, len(o.Args))
 				for i, a := range o.Args {
-					as[i] = a
+					if a == Unhashable {
+						as[i] = []int{1}
+					} else {
+						as[i] = a
+					}
 				}
 				opts = append(opts, sentinel.WithArgs(as...))
 			}
@@ -527,6 +582,13 @@ func Run(c *Case, clk *vclock.Clock) []Obs {
 			guard(func() { e.Exit() })
 		}
 	}
+	if r.hotRules {
+		if _, err := hotspot.LoadRules(nil); err != nil {
+			panic(err)
+		}
+	}
+	// every case has resource names of its own: drop their nodes (memory of long runs)
+	stat.ResetResourceNodeMap()
 	return out
 }
 
@@ -554,11 +616,11 @@ func coqSlot(s *SlotSpec) string {
 	}
 	switch s.Kind {
 	case "prep":
-		return fmt.Sprintf("mkP %d %d %s", s.ID, s.Order, emit.List(bs))
+		return fmt.Sprintf("mkP %s %d %s", emit.Z(int64(s.ID)), s.Order, emit.List(bs))
 	case "check":
-		return fmt.Sprintf("mkC %d %d %s", s.ID, s.Order, emit.List(bs))
+		return fmt.Sprintf("mkC %s %d %s", emit.Z(int64(s.ID)), s.Order, emit.List(bs))
 	default:
-		return fmt.Sprintf("mkS %d %d %s %s", s.ID, s.Order, emit.B(s.Real), emit.List(bs))
+		return fmt.Sprintf("mkS %s %d %s %s", emit.Z(int64(s.ID)), s.Order, emit.B(s.Real), emit.List(bs))
 	}
 }
 
@@ -759,6 +821,10 @@ func Gen(r *rng.R, id int, prof Profile) *Case {
 	nch := 1 + r.Intn(3)
 	next := 0
 	for i := 0; i < nch; i++ {
+		if prof == ProfC01 && i == 0 && r.Chance(3, 5) {
+			c.Chains = append(c.Chains, ChainSpec{Slots: DefaultChainSlots(), Default: true})
+			continue
+		}
 		c.Chains = append(c.Chains, genChain(r, prof, &next))
 	}
 	nops := 8 + r.Intn(34)
@@ -774,6 +840,18 @@ func Gen(r *rng.R, id int, prof Profile) *Case {
 			na := int(r.PickI(0, 0, 1, 1, 2, 3))
 			for j := 0; j < na; j++ {
 				o.Args = append(o.Args, r.Range(1, 50))
+			}
+			if prof == ProfC01 {
+				if na > 0 && r.Chance(1, 5) {
+					o.Args[r.Intn(na)] = Unhashable
+				}
+				if c.Chains[o.Chain].Default {
+					// the hotspot rule on parameter 0 panics on an unhashable value: flag 1 in the model
+					o.Flag = 0
+					if na > 0 && o.Args[0] == Unhashable {
+						o.Flag = 1
+					}
+				}
 			}
 			c.Ops = append(c.Ops, o)
 			nent++
